@@ -35,9 +35,9 @@ claim("C07", "proof",
       "Addresses where the statement does not single out one device (several cubes overlap, or the mouse outside xxDF-style addresses) are not compared. The floating-bus byte value is not decided.",
       "DESIGN.md §3 C07, Appendix A.2")
 claim("C08", "other",
-      "term equivalence of the address-decode functions; path-sensitive interpretation of the render loop body for a symbolic block; must-pass-through (CFG) pairing of every RAM mutation with a shadow-screen update; effect trace of the resynchronisation routine (every screen page of the machine, byte for byte); constant tables",
-      "Address decode, attribute fields, ink/paper/flash selection, pixel bit and position in the render loop, update() ranges and indices, flash period, buffer swap, bank table, and shadow coherence of every RAM mutator reachable from the API.",
-      "Not decided: the beam-relative clause (write before/after the beam appears this/next frame) - numeric relation of two counters.",
+      "term equivalence of the address-decode functions; path-sensitive interpretation of the render loop body for a symbolic block; must-pass-through (CFG) pairing of every RAM mutation with a shadow-screen update; effect trace of the resynchronisation routine (every screen page of the machine, byte for byte); constant tables; BlocksCount::from_clocks as a closed form of the frame clock tabulated against the beam position of every cell; rendered range and record of process_clocks; passed_from by linear arithmetic",
+      "Address decode, attribute fields, ink/paper/flash selection, pixel bit and position in the render loop, update() ranges and indices, flash period, buffer swap, bank table, and shadow coherence of every RAM mutator reachable from the API. Beam-relative clause: a cell is rendered when the clock is within -16..+4 T of the time the beam displays it, cells are rendered once per frame in raster order, and CPU writes update the screen copy immediately.",
+      "Not decided: writes landing within the tolerance window around the beam (the statement says 'clearly before/after').",
       "DESIGN.md §3 C08")
 claim("C09", "other",
       "mod-ref on border_color; constant tables; extracted closed form of next_border_pixel tabulated against the documented beam position for every T; path post-conditions of set_border/new_frame; loop-body interpretation of fill_to",
@@ -65,13 +65,13 @@ claim("C17", "other",
       "One open known finding (Sinclair joystick 2 'down'); the row AND across matrices is decided under C07.",
       "DESIGN.md §3 C17")
 claim("C18", "other",
-      "evaluated statics/consts (envelope function table, reload table, DAC tables) composed with extracted summaries of the segment functions and compared with a data-sheet generator; register decode and period clamps by term equivalence; pan table by constant propagation",
-      "All 16 envelope shapes (3 periods), DAC monotonicity/range, 7 pan triples, decode of R0-R13 and ignoring of 14/15, 0-acts-as-1 clamps, mixer bit polarity, ZXAyChip select/read/write pairing.",
+      "evaluated statics/consts (envelope function table, reload table, DAC tables) composed with extracted summaries of the segment functions and compared with a data-sheet generator; register decode and period clamps by term equivalence; pan table by constant propagation; forward interval analysis (f64) of the resampler's phase accumulator",
+      "All 16 envelope shapes (3 periods), DAC monotonicity/range, 7 pan triples, decode of R0-R13 and ignoring of 14/15, 0-acts-as-1 clamps, mixer bit polarity, ZXAyChip select/read/write pairing. The resampler's phase stays in [0,1) at every interpolation use and after every step for all sample rates down to 8 kHz (necessary for bounded samples).",
       "Not decided: frequencies, envelope period in seconds, filtered amplitudes, finiteness of floating-point output (numeric).",
       "DESIGN.md §3 C18")
 claim("C19", "other",
-      "guard/dominance of every audio-queue push by 'len < samples_per_frame' on complete path sets of ZXMixer::process/new_frame; constant propagation of FPS; mod-ref; constant beeper table",
-      "samples_per_frame = rate/50, queue-bound guard, exact padding at frame end, position clamp, mixer advanced from wait_internal with the clamped frame fraction, beeper levels, writer/consumer sets.",
+      "guard/dominance of every audio-queue push by 'len < samples_per_frame' on complete path sets of ZXMixer::process/new_frame; constant propagation of FPS; mod-ref; constant beeper table; forward interval analysis (f64) of the AY resampler's phase accumulator",
+      "samples_per_frame = rate/50, queue-bound guard, exact padding at frame end, position clamp, mixer advanced from wait_internal with the clamped frame fraction, beeper levels, writer/consumer sets. AY contribution: the resampler's phase stays in [0,1) for every sample rate of the range (necessary for bounded samples).",
       "Not decided: uniform spacing, edge placement within one sample, amplitude bound (floating point).",
       "DESIGN.md §3 C19")
 claim("C20", "other",
